@@ -10,6 +10,7 @@ import (
 	"time"
 
 	"github.com/plgd-dev/go-coap/v3/message"
+	"github.com/plgd-dev/go-coap/v3/message/codes"
 	"github.com/plgd-dev/go-coap/v3/message/pool"
 	coapNet "github.com/plgd-dev/go-coap/v3/net"
 	"github.com/plgd-dev/go-coap/v3/net/blockwise"
@@ -23,7 +24,7 @@ type Server struct {
 	doneCtx           context.Context
 	ctx               context.Context
 	multicastRequests *client.RequestsMap
-	multicastHandler  *coapSync.Map[uint64, HandlerFunc]
+	multicastHandler  *coapSync.Map[string, HandlerFunc] // keyed by the token bytes
 	serverStartedChan chan struct{}
 	doneCancel        context.CancelFunc
 	cancel            context.CancelFunc
@@ -86,7 +87,7 @@ func New(opt ...Option) *Server {
 	return &Server{
 		ctx:               ctx,
 		cancel:            cancel,
-		multicastHandler:  coapSync.NewMap[uint64, HandlerFunc](),
+		multicastHandler:  coapSync.NewMap[string, HandlerFunc](),
 		multicastRequests: coapSync.NewMap[uint64, *pool.Message](),
 		serverStartedChan: serverStartedChan,
 		doneCtx:           doneCtx,
@@ -388,10 +389,13 @@ func (s *Server) getOrCreateConn(udpConn *coapNet.UDPConn, raddr *net.UDPAddr, l
 	cfg.TransmissionAcknowledgeTimeout = s.cfg.TransmissionAcknowledgeTimeout
 	cfg.TransmissionMaxRetransmit = s.cfg.TransmissionMaxRetransmit
 	cfg.Handler = func(w *responsewriter.ResponseWriter[*client.Conn], r *pool.Message) {
-		h, ok := s.multicastHandler.Load(r.Token().Hash())
-		if ok {
-			h(w, r)
-			return
+		// Only a response can be the answer to a discovery. Tokens are scoped per direction (RFC 7252 5.3.1): a
+		// request of a peer may carry the token bytes of a running discovery and is for the application's handler.
+		if c := r.Code(); c < codes.GET || c > codes.Code(0x1f) {
+			if h, ok := s.multicastHandler.Load(string(r.Token())); ok {
+				h(w, r)
+				return
+			}
 		}
 		s.cfg.Handler(w, r)
 	}
